@@ -45,6 +45,10 @@ def scenario : String → Option Scn
   | "flush_enospc" => some { params := { osWrites := 1 }, call := .flush .writer, oracle := failAt 0 .enospc }
   | "flush_empty_nofault" => some { call := .flush .writer, failure := false }
   | "write_stdout_nl_enospc" => some { params := { osWrites := 1 }, call := .write .stdout false, oracle := failAt 0 .enospc }
+  | "write_stdout_str_nl_enospc" => some { params := { osWrites := 1 }, call := .write .stdout false, oracle := failAt 0 .enospc }
+  | "write_stdout_str_big_enospc" => some { params := { osWrites := 1 }, call := .write .stdout false, oracle := failAt 0 .enospc }
+  | "write_stdout_arr_enospc" => some { params := { osWrites := 1 }, call := .write .stdout false, oracle := failAt 0 .enospc }
+  | "write_stderr_str_big_enospc" => some { params := { osWrites := 1 }, call := .write .stderr false, oracle := failAt 0 .enospc }
   | "write_stdout_small_nofault" => some { call := .write .stdout false, failure := false }
   | "write_stdout_pkt_enospc" => some { params := { osWrites := 1 }, call := .write .stdout true, oracle := failAt 0 .enospc }
   | "flush_stdout_enospc" => some { params := { osWrites := 1 }, call := .flush .stdout, oracle := failAt 0 .enospc }
